@@ -152,7 +152,7 @@ class StreamEngine(engines.HistEngine):
         "C12": dict(
             monitor="c12", rel=REL,
             quick=dict(VERIF_N="1500", SCHEDULES="320"),
-            thorough=dict(VERIF_N="100000", SCHEDULES="150000"),
+            thorough=dict(VERIF_N="100000", SCHEDULES="1200000"),
             nontrivial=lambda lines: True,
             rule="stream: interleavings at yield-point granularity (start of a call, Lock, Unlock, cond.Wait, re-lock after a "
                  "wake-up, cond.Broadcast, the streamer call, each delegation, <-ctx.Done() of the watcher goroutine) of the "
@@ -250,6 +250,41 @@ class StreamEngine(engines.HistEngine):
             res.append(r)
         return p.returncode, res, p.stderr
 
+    def scan_trace(self, trace, wanted):
+        """one pass over the trace: per-history hash / non-triviality / operation histogram, the lines of the
+        histories in `wanted` and of the first three distinct ones"""
+        info = dict(n=0, distinct=set(), nontrivial=0, opcount={}, keep={}, samples=[])
+        cur, idx = None, -1
+
+        def flush():
+            if cur is None:
+                return
+            ops = self.ops_of(cur)
+            hsh = engines.ops_hash(ops)
+            if hsh not in info["distinct"]:
+                info["distinct"].add(hsh)
+                if self.nontrivial(cur):
+                    info["nontrivial"] += 1
+                if len(info["samples"]) < 3:
+                    info["samples"].append(cur[:14])
+            for o in ops[1:]:
+                t_ = o.split()
+                if len(t_) >= 2:
+                    info["opcount"][t_[1]] = info["opcount"].get(t_[1], 0) + 1
+            if idx in wanted:
+                info["keep"][idx] = {"lines": cur}
+        with open(trace) as f:
+            for line in f:
+                if line.startswith("H "):
+                    flush()
+                    idx += 1
+                    cur = []
+                if cur is not None and line.strip():
+                    cur.append(line.rstrip("\n"))
+        flush()
+        info["n"] = idx + 1
+        return info
+
     @staticmethod
     def nontrivial(lines):
         head = lines[0].split(";")[0].split()
@@ -319,7 +354,7 @@ class StreamEngine(engines.HistEngine):
             t = time.time()
             corpus_files = sorted(glob.glob(os.path.join(VERIF, "corpus", self.corpus, "*.hist")))
             unary_corpus = [f for f in corpus_files if os.path.basename(f).startswith("unary")]
-            nogate = not gen["ok"]
+            nogate = (not gen["ok"]) or bool(os.environ.get("VERIF_NOGATE"))
             sched = os.path.join(scratch, "sched.hist")
             enum_ir = gen["ir"] if gen["ok"] else os.path.join(C.COQ, "Stream", "RefIR.ir")
             maxn = P[tier]["SCHEDULES"] if tier in P else P["quick"]["SCHEDULES"]
@@ -332,11 +367,13 @@ class StreamEngine(engines.HistEngine):
             rc, hout, trace = self.run_sched(scratch, gen, hist_arg, n_unary, seed, "t", nogate=nogate,
                                              timeout=240 if tier == "quick" else 3000)
             harness_ok = rc == 0 and os.path.exists(trace)
-            results, hists = [], []
+            results, hists, scan = [], {}, dict(n=0, distinct=set(), nontrivial=0, opcount={}, keep={}, samples=[])
             if harness_ok:
                 drc, results, derr = self.judge(trace, None if nogate else gen["ir"])
-                hists = self.split_histories(trace)
-                if drc != 0 or len(results) != len(hists):
+                wanted = set(r["hist"] for r in results if not r.get("ok", True) or r["acc"] is not None)
+                scan = self.scan_trace(trace, wanted)
+                hists = scan["keep"]
+                if drc != 0 or len(results) != scan["n"]:
                     harness_ok = False
                     hout = "driver failed: " + derr[-2000:]
             timing["schedules_s"] = round(time.time() - t, 1)
@@ -404,7 +441,7 @@ class StreamEngine(engines.HistEngine):
             coq_checked, coq_mismatch = 0, None
             if harness_ok and results:
                 nmax = 120 if tier == "quick" else 1500
-                coq_checked, coq_mismatch = self.crosscheck(scratch, trace, None if nogate else gen["ir"], nmax)
+                coq_checked, coq_mismatch = self.crosscheck(scratch, trace, None if nogate else gen["ir"], nmax, len(results))
                 if coq_mismatch:
                     notes.append("in-Coq evaluation disagrees with the extracted driver: " + coq_mismatch)
                     path = C.write_replay(pid, seed, 99, {"property": pid, "kind": "no-failing-input-found",
@@ -412,22 +449,15 @@ class StreamEngine(engines.HistEngine):
                     violations.append(("no-failing-input-found", path))
             timing["coq_crosscheck_s"] = round(time.time() - t, 1)
             # 5. evidence
-            distinct = {}
-            for h in hists:
-                distinct.setdefault(engines.ops_hash(self.ops_of(h["lines"])), h)
-            nontriv = sum(1 for h in distinct.values() if self.nontrivial(h["lines"]))
+            distinct = scan["distinct"]
+            nontriv = scan["nontrivial"]
             n_stream = sum(1 for r in results if r["flag"].get("kind_stream"))
             n_unary_run = sum(1 for r in results if r["flag"].get("kind_unary"))
             divclasses = {}
             for r in results:
                 if r["acc"] is not None:
                     divclasses[r["acc"][1]] = divclasses.get(r["acc"][1], 0) + 1
-            opcount = {}
-            for h in hists:
-                for o in self.ops_of(h["lines"])[1:]:
-                    t_ = o.split()
-                    if len(t_) >= 2:
-                        opcount[t_[1]] = opcount.get(t_[1], 0) + 1
+            opcount = scan["opcount"]
             m = re.search(r"enum schedules=(\d+) configs=(\d+) exhaustive_configs=(\d+) sampled_configs=(\d+) corpus_histories=(\d+) "
                           r"corpus_replayed_verbatim=(\d+) corpus_schedules=(\d+)", enum_out)
             enum_stats = dict(zip(["schedules", "configs", "exhaustive_configs", "sampled_configs", "corpus_histories",
@@ -454,7 +484,7 @@ class StreamEngine(engines.HistEngine):
                                    "yield_points_inserted": gen.get("yields", 0)},
                 "states": states, "transitions": transitions,
                 "closed_set_states_explored": states,
-                "evaluations": len(hists),
+                "evaluations": scan["n"],
                 "schedules_forced": n_stream, "unary_cases": n_unary_run,
                 "traces_validated_against_impl": sum(1 for r in results if r["acc"] is None),
                 "distinct_nontrivial": nontriv, "distinct_histories": len(distinct),
@@ -469,7 +499,7 @@ class StreamEngine(engines.HistEngine):
                 "known_findings_printed": sorted(known_printed),
                 "gate": "off (VERIF_NOGATE): unscheduled stress runs only, the yield patterns / statement forms no longer match "
                         "the source" if nogate else "on: every schedule forced step by step",
-                "samples": [h["lines"][:14] for h in list(distinct.values())[:3]],
+                "samples": scan["samples"],
                 "exhaustive": False,
                 "timing": timing,
                 "notes": notes,
@@ -479,18 +509,19 @@ class StreamEngine(engines.HistEngine):
             for kind, path in violations:
                 print("VIOLATION property=%s replay=%s%s" % (pid, path, (" " + kind) if kind else ""))
             C.write_evidence(pid, tier, seed, cov, time.time() - t0, len(violations), ASSUMPTIONS.get(pid, []))
-            print("%s: %d schedules forced + %d unary cases (%d distinct, %d non-trivial), %d agree with the model, %d monitor "
+            print("%s: %d " % (pid, n_stream) + ("UNSCHEDULED stress runs (gate off)" if nogate else "schedules forced") +
+                  " + %d unary cases (%d distinct, %d non-trivial), %d agree with the model, %d monitor "
                   "failures, closed-set check of the regenerated program %s (%d states), proof %s, %.1fs"
-                  % (pid, n_stream, n_unary_run, len(distinct), nontriv, cov["traces_validated_against_impl"], len(fails),
+                  % (n_unary_run, len(distinct), nontriv, cov["traces_validated_against_impl"], len(fails),
                      "ok" if inst_ok else ("NOT REGENERATED" if not gen["ok"] else "FAILS"), states,
                      "ok" if proof_ok else "BROKEN", time.time() - t0))
             return 1 if violations else 0
         finally:
             shutil.rmtree(scratch, ignore_errors=True)
 
-    def crosscheck(self, scratch, trace, ir, nmax):
+    def crosscheck(self, scratch, trace, ir, nmax, total):
         cases = os.path.join(scratch, "Cases.v")
-        cmd = [self.driver_path(), trace] + (["--ir", ir] if ir else []) + ["--coq", cases, str(nmax)]
+        cmd = [self.driver_path(), trace] + (["--ir", ir] if ir else []) + ["--coq", cases, str(nmax), str(total)]
         p = subprocess.run(cmd, stdout=subprocess.PIPE, stderr=subprocess.PIPE, text=True)
         if p.returncode != 0 or not os.path.exists(cases):
             return 0, "driver --coq failed: " + p.stderr[-500:]
